@@ -160,7 +160,7 @@ PROPS = {
         "kx": [],
         "technique": "Verus data-structure invariant on the extracted impl Session (fetch set within the concurrency limit, queue within capacity, assertions as preconditions) + failure frame on Service::fetched + frame contract on Service::disconnected (nothing is cancelled for another link or another peer) + contract on Service::try_fetch (sink Outbox::fetch requires a connected session that is below its limit and not already fetching the repository; a fetch starts only if the table has no entry for the repository)",
         "explanation": "Session::{is_at_capacity,is_fetching,queue_fetch,dequeue_fetch,fetching,fetched,to_connected,to_disconnected} are verified against the abstract fetch set/queue: fetching(rid) requires connected, not already fetching and below the limit and yields exactly set.insert(rid) within the limit; queue never exceeds 128. Service::fetched: a result from a peer other than the one the ongoing fetch of that repository belongs to leaves the fetch table unchanged (and never trips the debug assertion).",
-        "not_decided": "Service::disconnected and Service::try_fetch are under contract (HashMap::retain and std's Entry API by contract; dequeue_fetches assumed to keep existing entries); with std's Entry API represented by stand-ins; the representation invariant wf() linking the sessions' fetch sets to the service's fetch table is a precondition of try_fetch whose preservation by the other handlers is not verified; 'at most one fetch per repository' rests on the fetch table being a map keyed by repository; interleavings are covered only in the sense that each verified handler preserves the invariants for any prior state.",
+        "not_decided": "HashMap::retain and std's Entry API (used by Service::disconnected / try_fetch) are assumed by contract; dequeue_fetches and maintain_connections are stand-ins assumed to keep existing entries of the fetch table; the representation invariant wf() linking the sessions' fetch sets to the service's fetch table is a precondition of try_fetch whose preservation by the other handlers is not verified; 'at most one fetch per repository' rests on the fetch table being a map keyed by repository; interleavings are covered only in the sense that each verified handler preserves the invariants for any prior state.",
     },
     "C27": {
         "vx": ["ssh"],
